@@ -8,7 +8,8 @@ import hashlib, math, os
 from lib import common
 from lib.common import hx, Corr
 
-RULE = ("orders: the 17 curve orders, every order 2..129 (1-byte chunks), boundary and random orders up to 2^12 "
+RULE = ("entropy sources: the same scripts behind a plain function, an object, an object whose truth value is False (__bool__ / __len__ == 0), "
+        "a functools.partial and a bound method; orders: the 17 curve orders, every order 2..129 (1-byte chunks), boundary and random orders up to 2^12 "
         "(2-byte chunks; all of them in the thorough tier), 2^k, 2^k +- 1, 2^k + 2 and random orders of 9..600 bits; "
         "streams: all-00, all-FF, top bits in {0, n-3, n-2, n-1, n, 2^b-1} x low bits {0, ones, random}, sequences of "
         "rejected chunks then an accepted one, short/exhausted scripts, chunks of the wrong length; exhaustive chunk tables "
@@ -35,6 +36,44 @@ class Replay:
         out = self.s[self.off:self.off + n]
         self.off += n
         return out
+
+
+class ReplayFalsy(Replay):
+    """a perfectly good entropy callable whose truth value is False"""
+
+    def __bool__(self):
+        return False
+
+
+class ReplayLen(Replay):
+    """entropy callable that reports len() = bytes handed out so far (a fresh one is 'empty', hence falsy)"""
+
+    def __len__(self):
+        return self.off
+
+
+SOURCE_KINDS = ["object", "function", "falsy-object", "len0-object", "partial", "bound-method"]
+
+
+def source(kind, stream):
+    """(callable to hand to the library, recorder with .sizes/.off): the same scripted stream behind different kinds of callables"""
+    import functools
+    if kind == "falsy-object":
+        r = ReplayFalsy(stream)
+        return r, r
+    if kind == "len0-object":
+        r = ReplayLen(stream)
+        return r, r
+    r = Replay(stream)
+    if kind == "function":
+        def f(numbytes):
+            return r(numbytes)
+        return f, r
+    if kind == "partial":
+        return functools.partial(Replay.__call__, r), r
+    if kind == "bound-method":
+        return r.__call__, r
+    return r, r
 
 
 class Chunks:
@@ -123,10 +162,11 @@ def streams_for(ctx, n):
     return res
 
 
-def real_randrange(n, ent):
+def real_randrange(n, ent, rec=None):
     from ecdsa import util
+    rec = ent if rec is None else rec
     k = util.randrange(n, ent)
-    return "%d %s" % (k, lst(ent.sizes))
+    return "%d %s" % (k, lst(rec.sizes))
 
 
 def one_shot_table(n):
@@ -243,9 +283,18 @@ def correspond(ctx):
                        [bytes(rng.getrandbits(8) for _ in range(rng.randrange(0, 2 * clen(n) + 2))) for _ in range(4)]):
             c.add("randrange_chunks %d %s" % (n, " ".join(hx(x) for x in chunks)), lambda: real_randrange(n, Chunks(chunks)), "wrong-length-chunks")
     # adversarial scripts on all orders
+    # the same scripts behind every kind of callable (function, object, object with a false truth value, partial, bound method)
+    i = 0
     for name, n in curve_orders() + other_orders(ctx):
         for tag, s in streams_for(ctx, n):
-            c.add("randrange %d %s" % (n, hx(s)), lambda: real_randrange(n, Replay(s)), tag)
+            kind = SOURCE_KINDS[i % len(SOURCE_KINDS)]
+            i += 1
+            c.add("randrange %d %s" % (n, hx(s)), lambda: real_randrange(n, *source(kind, s)), tag)
+            ctx.hist("randrange.source-kind", kind)
+    for kind in SOURCE_KINDS:
+        for n in (2, 7, 257, curves[0].order, curves[-1].order):
+            s = bytes(rng.getrandbits(8) for _ in range(6 * clen(n)))
+            c.add("randrange %d %s" % (n, hx(s)), lambda: real_randrange(n, *source(kind, s)), "source:" + kind)
     c.run()
 
     # key generation and the nonce draw on real curves
@@ -258,18 +307,21 @@ def correspond(ctx):
         strs = streams_for(ctx, n)
         if ctx.quick:
             strs = [x for x in strs if x[0] in ("allFF", "all00", "short")] + rng.sample(strs, 4)
-        for tag, s in strs:
+        for j, (tag, s) in enumerate(strs):
+            kind = SOURCE_KINDS[j % len(SOURCE_KINDS)]
+
             def gen():
-                ent = Replay(s)
-                return "%d %s" % (SigningKey.generate(cv, entropy=ent).privkey.secret_multiplier, lst(ent.sizes))
+                ent, rec = source(kind, s)
+                return "%d %s" % (SigningKey.generate(cv, entropy=ent).privkey.secret_multiplier, lst(rec.sizes))
             c.add("sk_generate %d %s" % (n, hx(s)), gen, tag)
             e = rng.randrange(0, n)
 
             def nonce():
-                ent = Replay(s)
+                ent, rec = source(kind, s)
                 r, sg = sk0.sign_number(e, entropy=ent)
-                return "%d %s" % ((e + r * d) * pow(sg, -1, n) % n, lst(ent.sizes))
+                return "%d %s" % ((e + r * d) * pow(sg, -1, n) % n, lst(rec.sizes))
             c.add("sign_nonce %d %s" % (n, hx(s)), nonce, tag)
+            ctx.hist("keys.source-kind", kind)
         # one stream, two draws: generate a key, then sign with it (fresh bytes)
         for _ in range(2):
             s = bytes(rng.getrandbits(8) for _ in range(4 * clen(n)))
@@ -370,12 +422,12 @@ def ref_overshoot(seed, n):
     return v % (n - 1) + 1
 
 
-def check_stream(util, n, s):
+def check_stream(util, n, s, kind="object"):
     """property read literally on one (order, script): returns a description of the failure or None"""
     want = spec_randrange(n, s)
-    ent = Replay(s)
+    fn, ent = source(kind, s)
     try:
-        got = util.randrange(n, ent)
+        got = util.randrange(n, fn)
     except IndexError:
         got = None
     except Exception as ex:  # noqa
@@ -390,11 +442,12 @@ def check_stream(util, n, s):
             return {"got": got, "why": "every chunk of the script is rejected by rejection sampling, a value was returned"}
         return None
     if got != want[0] or ent.off != want[1]:
-        return {"got": got, "consumed": ent.off, "expected": want[0], "expected_consumed": want[1], "why": "value is not the first accepted chunk"}
+        return {"got": got, "consumed": ent.off, "requests": ent.sizes, "expected": want[0], "expected_consumed": want[1],
+                "why": "value is not the first accepted chunk of the supplied source" + (" (the source was never asked for bytes)" if not ent.sizes else "")}
     # replayable, and independent of the unread tail
-    ent2 = Replay(s[:want[1]] + bytes(len(s) - want[1]))
+    fn2, ent2 = source(kind, s[:want[1]] + bytes(len(s) - want[1]))
     try:
-        again = util.randrange(n, ent2)
+        again = util.randrange(n, fn2)
     except Exception as ex:  # noqa
         again = "exception " + common.errname(ex)
     if again != got:
@@ -402,7 +455,7 @@ def check_stream(util, n, s):
     return None
 
 
-def check_key_nonce(cv, s, dg):
+def check_key_nonce(cv, s, dg, kind="object"):
     """generate a key and sign with it from one script; returns None (property holds), "exhausted" (the
     script runs dry exactly where the literal reading says it must) or a description of the failure"""
     from ecdsa import SigningKey
@@ -410,13 +463,13 @@ def check_key_nonce(cv, s, dg):
     pair = lambda r, s_, o: (r, s_)
     w1 = spec_randrange(n, s)
     w2 = spec_randrange(n, s[w1[1]:]) if w1 else None
-    ent = Replay(s)
+    fn, ent = source(kind, s)
     try:
-        sk = SigningKey.generate(cv, entropy=ent)
+        sk = SigningKey.generate(cv, entropy=fn)
         d = sk.privkey.secret_multiplier
         off1 = ent.off
         e = int.from_bytes(dg, "big")
-        r, sg = sk.sign_digest(dg, entropy=ent, sigencode=pair)
+        r, sg = sk.sign_digest(dg, entropy=fn, sigencode=pair)
         k = (e + r * d) * pow(sg, -1, n) % n
         sig2 = SigningKey.generate(cv, entropy=Replay(s[:off1])).sign_digest(dg, entropy=Replay(s[off1:]), sigencode=pair)
     except IndexError:
@@ -443,12 +496,16 @@ def search(ctx):
     rng = ctx.rng
     n_eval = 0
     # 1. range / determinism / consumption on adversarial scripts
+    i = 0
     for name, n in curve_orders() + other_orders(ctx):
         for tag, s in streams_for(ctx, n):
             n_eval += 1
-            bad = check_stream(util, n, s)
+            kind = SOURCE_KINDS[i % len(SOURCE_KINDS)]
+            i += 1
+            bad = check_stream(util, n, s, kind)
+            ctx.hist("search.source-kind", kind)
             if bad:
-                ctx.violation({"input": {"kind": "randrange", "order": n, "stream": s.hex(), "class": tag}, "observed": bad,
+                ctx.violation({"input": {"kind": "randrange", "order": n, "stream": s.hex(), "class": tag, "source": kind}, "observed": bad,
                                "expected": "first accepted chunk of the script, in [1, n-1], %d bytes per iteration" % clen(n)})
                 if len(ctx.violations) >= 3:
                     return
@@ -501,10 +558,11 @@ def search(ctx):
                 s = chunk_with_top(n, 5, 0) + chunk_with_top(n, n - 1, 0) + b"\x00" * (L - 1)
             dg = hashlib.sha1(b"c17 %d" % rng.getrandbits(32)).digest()[:min(20, cv.baselen)]
             n_eval += 3
-            obs = check_key_nonce(cv, s, dg)
+            kind = SOURCE_KINDS[(rep + len(cv.name)) % len(SOURCE_KINDS)]
+            obs = check_key_nonce(cv, s, dg, kind)
             ctx.hist("search.key+nonce", "script exhausted (as expected)" if obs == "exhausted" else ("ok" if obs is None else "violation"))
             if obs and obs != "exhausted":
-                ctx.violation({"input": {"kind": "key+nonce", "curve": cv.name, "stream": s.hex(), "digest": dg.hex()}, "observed": obs,
+                ctx.violation({"input": {"kind": "key+nonce", "curve": cv.name, "stream": s.hex(), "digest": dg.hex(), "source": kind}, "observed": obs,
                                "expected": "key = first accepted chunk, nonce = first accepted chunk of the rest, same stream gives the same signature"})
     # 4. seed helpers: deterministic, in range, equal to the independent reading
     orders = [n for _, n in curve_orders()] + [2, 3, 4, 5, 255, 256, 257, 258, 65537, (1 << 64) - 1, (1 << 64), (1 << 64) + 1]
@@ -540,7 +598,7 @@ def replay(rec):
     from ecdsa import util
     i = rec["input"]
     if i["kind"] == "randrange":
-        return check_stream(util, i["order"], bytes.fromhex(i["stream"])) is not None
+        return check_stream(util, i["order"], bytes.fromhex(i["stream"]), i.get("source", "object")) is not None
     if i["kind"] == "one-shot":
         n, ch = i["order"], bytes.fromhex(i["chunk"])
         ent = Chunks([ch])
@@ -555,7 +613,7 @@ def replay(rec):
         return sum(1 for k in t if k == i["target"]) != 1 << (8 * L - blen(n))
     if i["kind"] == "key+nonce":
         from ecdsa import curves
-        obs = check_key_nonce([c for c in curves.curves if c.name == i["curve"]][0], bytes.fromhex(i["stream"]), bytes.fromhex(i["digest"]))
+        obs = check_key_nonce([c for c in curves.curves if c.name == i["curve"]][0], bytes.fromhex(i["stream"]), bytes.fromhex(i["digest"]), i.get("source", "object"))
         return obs is not None and obs != "exhausted"
     if i["kind"] == "seed":
         import ast
